@@ -422,6 +422,21 @@ def scan_writes(fn, conv_names, inherited=(), where=None, out=None, calls=None):
     else:
         body_nodes = fn.body
 
+    # locals that ALIAS non-local state: `x = G`, `x = G.attr`, `x = G[k]` (also annotated / walrus-free forms) with G not local.  A write
+    # THROUGH such a local (x += ..., x.append(..), x[k] = .., x.a = ..) is a write to the non-local object (lists / dicts / sets are
+    # updated in place by the augmented operators).  Conservative: the local counts as an alias wherever it was bound that way once.
+    aliases = set()
+    for n_ in ast.walk(fn):
+        tgt, val = None, None
+        if isinstance(n_, ast.Assign) and len(n_.targets) == 1 and isinstance(n_.targets[0], ast.Name):
+            tgt, val = n_.targets[0].id, n_.value
+        elif isinstance(n_, ast.AnnAssign) and isinstance(n_.target, ast.Name) and n_.value is not None:
+            tgt, val = n_.target.id, n_.value
+        if tgt is not None and isinstance(val, (ast.Name, ast.Attribute, ast.Subscript)):
+            r_ = root_name(val)
+            if r_ is not None and r_ not in locs and r_ not in conv_names and tgt in locs:
+                aliases.add(tgt)
+
     def rec(node):
         for ch in ast.iter_child_nodes(node):
             handle(ch)
@@ -430,6 +445,12 @@ def scan_writes(fn, conv_names, inherited=(), where=None, out=None, calls=None):
         if isinstance(n, (ast.FunctionDef, ast.AsyncFunctionDef)):
             scan_writes(n, conv_names, locs, where + "." + n.name, out, calls)
             return
+        if isinstance(n, ast.AugAssign) and isinstance(n.target, ast.Name) and n.target.id in aliases:
+            out.append({"kind": "WGlobal", "what": "in-place update through the alias %s of non-local state: %s" % (n.target.id, ast.unparse(n)[:60]), "line": n.lineno, "fn": where})
+        if isinstance(n, (ast.Attribute, ast.Subscript)) and isinstance(n.ctx, (ast.Store, ast.Del)) and root_name(n) in aliases:
+            out.append({"kind": "WGlobal", "what": "store through the alias %s of non-local state: %s" % (root_name(n), ast.unparse(n)[:60]), "line": n.lineno, "fn": where})
+        if isinstance(n, ast.Call) and isinstance(n.func, ast.Attribute) and root_name(n.func) in aliases and n.func.attr in MUTATORS:
+            out.append({"kind": "WGlobal", "what": "mutating call through the alias %s of non-local state: %s" % (root_name(n.func), ast.unparse(n)[:60]), "line": n.lineno, "fn": where})
         if isinstance(n, ast.Lambda):
             largs = {a.arg for a in n.args.args + n.args.kwonlyargs + n.args.posonlyargs}
             sub = ast.FunctionDef(name="<lambda>", args=n.args, body=[ast.Expr(n.body)], decorator_list=[], lineno=n.lineno)
